@@ -56,3 +56,10 @@ Proof.
   induction m as [|m IH]; intros n l; cbn; [reflexivity|].
   destruct l as [|a l]; [destruct n; reflexivity|]. apply IH.
 Qed.
+
+Lemma combine_app' {A B} (l1 : list A) : forall (l2 : list B) l1' l2', length l1 = length l2 ->
+  combine (l1 ++ l1') (l2 ++ l2') = combine l1 l2 ++ combine l1' l2'.
+Proof.
+  induction l1 as [|a l1 IH]; intros [|b l2] l1' l2' H; cbn in *; try discriminate; [reflexivity|].
+  f_equal. apply IH. lia.
+Qed.
